@@ -36,6 +36,10 @@ type c12Block struct {
 	// C12: after this block, ask the LIVE store object for a version the policy has pruned (or a future one);
 	// the refusal must leave the object exactly as it was
 	ProbeRefused bool `json:"probe_refused,omitempty"`
+	// C12: while this block's writes are still uncommitted, load the latest committed version on a copy of the LIVE
+	// store object (what a height query / Context.PrevCtx does during block execution) and read it - there, and again
+	// after this block's commit when the policy still retains that version
+	View bool `json:"view,omitempty"`
 }
 
 type c12Prog struct {
@@ -44,6 +48,10 @@ type c12Prog struct {
 	KeepEvery  int64      `json:"keep_every"`
 	Lazy       bool       `json:"lazy,omitempty"`
 	Blocks     []c12Block `json:"blocks"`
+	// C13, application level (c13_appcrash.go): a chain history executed on a whole node, and the block indices
+	// whose Commit is interrupted at every durable write unit
+	App     *hProg `json:"app,omitempty"`
+	CrashAt []int  `json:"crash_at,omitempty"`
 }
 
 // ---------------------------------------------------------------------------------------------
@@ -103,6 +111,7 @@ func genC12Common(t *rapid.T, tier string, crash bool) *c12Prog {
 		}
 		if !crash {
 			b.ProbeRefused = rapid.IntRange(0, 5).Draw(t, "proberefused") == 0
+			b.View = rapid.IntRange(0, 3).Draw(t, "view") == 0
 		}
 		return b
 	}), minBlocks, maxBlocks).Draw(t, "blocks")
@@ -114,7 +123,12 @@ func genC12Common(t *rapid.T, tier string, crash bool) *c12Prog {
 }
 
 func genC12(t *rapid.T, tier string) interface{} { return genC12Common(t, tier, false) }
-func genC13(t *rapid.T, tier string) interface{} { return genC12Common(t, tier, true) }
+func genC13(t *rapid.T, tier string) interface{} {
+	if rapid.IntRange(0, 4).Draw(t, "applevel") == 0 {
+		return genC13App(t, tier)
+	}
+	return genC12Common(t, tier, true)
+}
 
 // ---------------------------------------------------------------------------------------------
 // system under test
@@ -310,7 +324,12 @@ func (s *c12Sys) checkVersions(db *crashDB, h *c12History, latest int64, when st
 }
 
 func execC12(prog interface{}, c *Case) *Violation { return execC12C13(prog.(*c12Prog), c, false) }
-func execC13(prog interface{}, c *Case) *Violation { return execC12C13(prog.(*c12Prog), c, true) }
+func execC13(prog interface{}, c *Case) *Violation {
+	if p := prog.(*c12Prog); p.App != nil {
+		return execC13App(p, c)
+	}
+	return execC12C13(prog.(*c12Prog), c, true)
+}
 
 func execC12C13(p *c12Prog, c *Case, crashMode bool) *Violation {
 	if p.NStores < 1 || p.NStores > 8 {
@@ -335,7 +354,7 @@ func execC12C13(p *c12Prog, c *Case, crashMode bool) *Violation {
 	c.Labelf("keepRecent=%d keepEvery=%d", p.KeepRecent, p.KeepEvery)
 	prunedSeen, retainedOld, reopenAfterDelete, deleted := false, false, false, false
 	replayed, replayedPruning := 0, false
-	probes := 0
+	probes, views, viewsAfter := 0, 0, 0
 	crashInside2, crashAfterPrune := false, false
 
 	for bi := range p.Blocks {
@@ -351,6 +370,25 @@ func execC12C13(p *c12Prog, c *Case, crashMode bool) *Violation {
 			if w.Del {
 				deleted = true
 			}
+		}
+		var view *rootmulti.Store
+		if !crashMode && b.View && height > 1 {
+			prev := height - 1
+			var err error
+			res := catch(func() {
+				view = (*rs.CopyStore()).(*rootmulti.Store)
+				err = view.LoadVersion(prev)
+			})
+			if res.panicked || err != nil {
+				return violf("C12/retained-version-unreadable", "during block %d: CopyStore().LoadVersion(%d) of the latest committed version failed: err=%v panic=%v", height, prev, err, res.pv)
+			}
+			if msg, ok := s.content(view, h.snaps[prev]); !ok {
+				return violf("C12/view-of-committed-version-shows-other-data", "during block %d (writes applied, not committed): a copy of the live store loaded at version %d: %s", height, prev, msg)
+			}
+			if msg, ok := s.content(rs, model); !ok {
+				return violf("C12/copy-moved-the-original", "during block %d: loading version %d on a copy changed what the live store shows: %s", height, prev, msg)
+			}
+			views++
 		}
 		if crashMode && b.Crash {
 			db.startLog()
@@ -378,6 +416,18 @@ func execC12C13(p *c12Prog, c *Case, crashMode bool) *Violation {
 		h.commit(height, p)
 		if msg, ok := s.content(rs, model); !ok {
 			return violf("C12/content", "after commit %d (same object): %s", height, msg)
+		}
+		if view != nil && h.retained[height-1] {
+			var msg string
+			ok := true
+			res := catch(func() { msg, ok = s.content(view, h.snaps[height-1]) })
+			if res.panicked {
+				return violf("C12/retained-version-unreadable", "a view of version %d taken during block %d panics after commit %d although the policy retains that version (keepRecent=%d keepEvery=%d): %v", height-1, height, height, p.KeepRecent, p.KeepEvery, res.pv)
+			}
+			if !ok {
+				return violf("C12/view-of-committed-version-shows-other-data", "a view of version %d taken during block %d, read after commit %d: %s", height-1, height, height, msg)
+			}
+			viewsAfter++
 		}
 
 		if crashMode && b.Crash {
@@ -513,6 +563,12 @@ func execC12C13(p *c12Prog, c *Case, crashMode bool) *Violation {
 	if probes > 0 {
 		c.Label("refused-load-on-the-live-store")
 	}
+	if views > 0 {
+		c.Label("view-of-latest-version-during-a-block")
+	}
+	if viewsAfter > 0 {
+		c.Label("view-read-again-after-the-next-commit")
+	}
 	if replayedPruning {
 		c.Label("replayed-commit-prunes-an-already-released-version")
 	}
@@ -576,8 +632,9 @@ func (s *c12Sys) enumerateCrashes(c *Case, durable *crashDB, b *c12Block, height
 		res := catch(func() { err = rs2.LoadLatestVersion() })
 		if res.panicked || err != nil {
 			sig := "C13/reopen-fails-after-crash"
-			if prunedLastFlushed && k < W {
-				// known finding #9: the version the commit info still points at was pruned before the flush
+			if prunedLastFlushed && k < W && !h.retained[height-1] {
+				// known finding #9: the version the commit info still points at was pruned - as the configured policy
+				// asks at this commit - before the flush (a deletion the policy does not ask for is not that finding)
 				sig = "C13/reopen-fails-after-crash/last-flushed-version-pruned-before-flush"
 				if c.Known(sig) {
 					continue
